@@ -15,11 +15,11 @@ Import ListNotations.
    documented sections spread over any number of files of different priority, and every set of flags: the value in
    the parser's namespace is the flag, else the most specific documented section that sets it (each section
    resolved over the files by priority, null = unset), else the built-in default. *)
-(* ---- BEGIN block to swap when the two deviations below are repaired: drop the two exception hypotheses ---- *)
+(* ---- BEGIN block to swap when the deviation below is repaired: drop the exception hypothesis ---- *)
 Theorem effective_value_spec :
   forall ep o files flags,
     In ep ep_names -> In o (options ep) -> o <> kIgnore ->
-    o <> kLog -> ~ (ep = kServer /\ o = kPort) ->
+    o <> kLog ->
     wf_filesb files = true ->
     effective ep files flags o = Ok (spec_effective ep files flags o).
 Proof. exact effective_value_spec_full. Qed.
@@ -31,12 +31,12 @@ Theorem global_section_refuted :
 Proof. exact global_section_refuted_lemma. Qed.
 Print Assumptions global_section_refuted.
 
-Theorem server_port_refuted :
-  exists files, wf_filesb files = true /\
-    effective (of_ascii "server") files [] (of_ascii "port")
-    <> Ok (spec_effective (of_ascii "server") files [] (of_ascii "port")).
-Proof. exact server_port_refuted_lemma. Qed.
-Print Assumptions server_port_refuted.
+(* Server.port was the second deviation (its class default shadowed the Web section); repaired in /repo *)
+Theorem server_port_as_documented :
+  effective (of_ascii "server") w_server_files [] (of_ascii "port") = Ok (spec_effective (of_ascii "server") w_server_files [] (of_ascii "port"))
+  /\ spec_effective (of_ascii "server") w_server_files [] (of_ascii "port") = JInt 9000.
+Proof. exact server_port_as_documented. Qed.
+Print Assumptions server_port_as_documented.
 Theorem global_section_never_participates : forall cn, participates kGlobal cn = false.
 Proof. exact global_never_participates. Qed.
 Print Assumptions global_section_never_participates.
@@ -45,7 +45,7 @@ Print Assumptions global_section_never_participates.
 (* the working-directory file masks, key by key, whatever files of lower priority say *)
 Theorem cwd_file_wins :
   forall ep o cwd rest flags,
-    In ep ep_names -> In o (options ep) -> o <> kIgnore -> o <> kLog -> ~ (ep = kServer /\ o = kPort) ->
+    In ep ep_names -> In o (options ep) -> o <> kIgnore -> o <> kLog ->
     wf_filesb (cwd :: rest) = true ->
     (forall S f, In S (spec_sections ep) -> In f rest -> file_get f S o <> None -> file_get cwd S o <> None) ->
     effective ep (cwd :: rest) flags o = effective ep [cwd] flags o.
